@@ -36,8 +36,8 @@ def region_jobs(tier):
 
 
 # jobs of other properties that run under a symbolic allocation-failure mask: (module, name filter)
-BORROW = [("C20", lambda n: n.startswith("setter")), ("C17", lambda n: n.startswith(("api.insert.n", "lifecycle"))), ("C18", lambda n: "alloc" in n or "create" in n),
-          ("C14", lambda n: "alloc" in n or "setter" in n)]
+BORROW = [("C20", lambda n: n.startswith("setter")), ("C17", lambda n: n.startswith(("api.insert.n", "lifecycle", "composite_glyphs"))), ("C12", lambda n: n.startswith("composite_trapezoids")), ("C18", lambda n: n.startswith(("header.block", "chain.create"))),
+          ]   # (the allocating setters of C14 are the same harnesses as C20's)
 
 
 def jobs(tier):
@@ -60,6 +60,6 @@ META = {
     "assumptions": ["only the functions listed under functions_under_contract are checked under allocation failure; the quantifier "
                     "'every allocation site reached by every API entry point' is covered for those only",
                     "pixman_op / validate bail paths (region operations on multi-rectangle operands) are NOT covered: symbolic execution of pixman_op does not finish"],
-    "not_covered": ["pixman_op and validate allocation-failure bail paths", "general_composite_rect scanline buffer", "pixman_composite_glyphs mask image",
-                    "pixman_composite_trapezoids temporary image", "store_scanline_generic_float"],
+    "not_covered": ["pixman_op and validate allocation-failure bail paths", "general_composite_rect scanline buffer (C04 thorough tier only)",
+                    "store_scanline_generic_float"],
 }
